@@ -11,7 +11,7 @@ claim('C18',
       'Bounded proof, inductive step: one soxr_output call of the real soxr.c from any API state with a nondeterministic input function (short supply, end, failure at any of <= 4 calls) over the abstract engine: request <= max_ilen, consume-once-in-order (ghost sequence numbers checked inside the engine), no call after end/failure/in error state, error string set.',
       'Trusted: cbmc; abstract engine contract; frames per call <= 3 (4 thorough); datatypes/layout/engine/channels enumerated per obligation.')
 
-for pid in ['C01', 'C02', 'C12', 'C14', 'C16',
+for pid in ['C16',
             'C17']:
     na(pid, 'check under construction in this session (breadth-first build order of DESIGN.md section 12); not yet claimed')
 
@@ -51,3 +51,17 @@ claim('C04',
 claim('C05',
       'Bounded proof: split lemma for every real stage kernel by self-composition (all clock values, all split points), FIFO/driver frame conservation (inductive step), and one real soxr.c push/pull call handing frames over once, in order, for any short supply.',
       'Trusted: cbmc; data-independence argument (paper step) from equal positions to bit-identical samples; DFT-stage numerics stubbed; <= 2 samples per call in the split obligations of the poly-phase kernels.')
+
+E4 = 'hybrid, stated as such: concrete native execution of the real library built from the current tree yields the filter taps / whole-conversion impulse responses; the deciding step is z3 (QF_NRA, portfolio of two z3 versions) on the exact Chebyshev polynomial of the response, proving the bound for every frequency of a band (unsat) or returning a violating frequency; plus cbmc bounded model checking of the real soxr.c/cr.c units named in the evidence'
+claim('C02',
+      'For the stated configuration list: z3 proves that no stop-band frequency (continuum from the stop-band start to Nyquist) of the whole-conversion prototype, of any designed single-phase stage filter, or of a half-band table exceeds 2^-bits of the DC gain (resp. the tabulated attenuation).',
+      'Partial: finite configuration list; prototypes <= 520 taps (quick) / 1500 (thorough); poly-phase (arbitrary-ratio) prototypes not decided; stage-level checks take their band edges from the arguments of lsx_design_lpf.', technique=E4, category='other')
+claim('C01',
+      'For the stated configuration list: z3 proves pass-band gain within the roll-off class for every in-band frequency of the whole-conversion prototype and of every designed single-phase stage filter; exact symmetry/alignment and per-phase unit gain of the measured prototype (also for long rational plans); recipe mapping of soxr_quality_spec for all recipe words (cbmc).',
+      'Partial: irrational ratios / interpolated-coefficient stages, prototypes above the tap limit and rounding noise for non-impulse inputs are not decided; finite configuration list over the four CR engines.', technique=E4, category='other')
+claim('C14',
+      'For the stated list of phase settings: z3 proves the phase-transformed filters and whole-conversion prototypes meet the same pass-band and stop-band bounds as linear phase over the continuum; p / 100-p are exact mirrors; linear phase is symmetric about the input instant; soxr_quality_spec phase bits (cbmc, all recipe words).',
+      'Finite configuration list; known finding KF_C14_POW2_NONLINEAR (1:64 minimum phase) is reported as KNOWN-FINDING, its neighbours are ordinary obligations; output length/rate independence of the phase rests on the C03/C15 lemmas.', technique=E4, category='other')
+claim('C12',
+      'cbmc: exact rational stepping of the real poly-fir0 kernels (shift covariance), gain folded into every entry of the real poly-phase coefficient table exactly once, scale x datatype ratio handed to the engines; hybrid E4: whole-conversion DC gain and per-output-phase gain equal io_spec.scale for scale in {1, 0.5, 4} on the configuration list.',
+      'Partial: superposition within the configured precision (floating-point rounding over FFT/FIR sums) is not decided; basis-input argument (table linear in the taps) for the coefficient-table lemma.', technique=E4, category='other')
